@@ -7,18 +7,21 @@
      __init__(in1,in2,enable): all isinstance(pin,int) (bools count) else TypeError;
                 then the three must be pairwise different as integers (True == 1)
                 else ValueError.  speed 0.0, not inverted, mode coast, applied 0.0.
-     _clamp_speed v : float(v) (TypeError for a non-number), then >1 -> 1, <-1 -> -1.
+     _clamp_speed v : float(v) (TypeError for a non-number), ValueError for NaN (never here: the
+                numbers of this model are finite; specials: Host/ActuatorsX.v), then >1 -> 1, <-1 -> -1.
+     _check_duration d : d < 0 (TypeError for a non-number d; ValueError if negative), then
+                ValueError unless math.isfinite(d) (never here, as above).
      set_speed v    : clamp (may raise, nothing written yet); _speed := it; _apply_speed.
      _apply_speed x : effective := -x if inverted else x; mode := coast if
                 effective == 0 else drive; applied := effective.
      backward [v]   : magnitude := abs(clamp v) (may raise); set_speed(-magnitude).
      stop / coast   : speed, applied := 0; mode := brake / coast.
      invert         : inverted := not inverted; _apply_speed(_speed).
-     ramp t d       : d < 0 (TypeError for a non-number d; ValueError if negative);
+     ramp t d       : _check_duration d (may raise);
                 target := clamp t (may raise); start := _speed;
                 step := (target-start)/STEPS; delay := d/STEPS;
                 for k = 1..STEPS: set_speed(start + step*k); if delay > 0: sleep(delay).
-     run_for d v    : d < 0 check as above; set_speed v (may raise before any write);
+     run_for d v    : _check_duration d (may raise); set_speed v (may raise before any write);
                 sleep(d) (always, also for d = 0); stop().
      getters return the stored field.
 
